@@ -40,11 +40,11 @@ Lemma rd_plain_be32 n rest : rd_plain 4 (be32 n ++ rest) = ROk (be32 n) rest.
 Proof. exact (rd_plain_app (be32 n) rest). Qed.
 
 (* ---- the loop of parseHeaderValueBlock run on what writeHeaderValueBlock produced ---- *)
-(* an entry the codec is consistent on: ToLower keeps the byte length of the name, ToLower is stable on
-   the lower-cased name, and the lengths fit the 32-bit fields *)
+(* an entry the codec is specified for: ToLower is stable on the lower-cased name (true for every string
+   Go's ToLower returns on the tabulated runes and all ASCII/invalid bytes), and the lengths fit the 32-bit fields *)
 Definition ent_ok (e : went) : bool :=
   let '(name, low, vals) := e in
-  (blen low =? blen name) && (blen name <? 2^32) && (blen (join_byte 0 vals) <? 2^32) &&
+  (blen low <? 2^32) && (blen (join_byte 0 vals) <? 2^32) &&
   match go_lower low with Some l => bytes_eqb l low | None => false end.
 (* what the reader computes for one entry, without any byte-level work *)
 Definition spec_step (acc : hmap * Z * Z * Z) (e : went) : hmap * Z * Z * Z :=
@@ -68,22 +68,21 @@ Proof.
   - reflexivity.
   - simpl in Hok. apply andb_true_iff in Hok. destruct Hok as [Hent Hok].
     apply andb_true_iff in Hent. destruct Hent as [Hent Hlow].
-    apply andb_true_iff in Hent. destruct Hent as [Hent Hv].
-    apply andb_true_iff in Hent. destruct Hent as [Hlen Hn].
-    apply Z.eqb_eq in Hlen. apply Z.ltb_lt in Hn. apply Z.ltb_lt in Hv.
+    apply andb_true_iff in Hent. destruct Hent as [Hn Hv].
+    apply Z.ltb_lt in Hn. apply Z.ltb_lt in Hv.
     destruct (go_lower low) as [l|] eqn:Hgl; [|discriminate].
     apply bytes_eqb_eq in Hlow. subst l.
-    pose proof (blen_range name) as Hn0. pose proof (blen_range (join_byte 0 vals)) as Hv0.
+    pose proof (blen_range low) as Hn0. pose proof (blen_range (join_byte 0 vals)) as Hv0.
     cbn [length map concat fold_left].
     unfold write_entry at 1. cbv zeta.
     rewrite <- !app_assoc.
     cbn [parse_entries].
     rewrite rd_plain_be32.
-    assert (Hu1 : u32 (blen name) = blen name) by (unfold u32; apply Z.mod_small; lia).
+    assert (Hu1 : u32 (blen low) = blen low) by (unfold u32; apply Z.mod_small; lia).
     assert (Hu2 : u32 (blen (join_byte 0 vals)) = blen (join_byte 0 vals)) by (unfold u32; apply Z.mod_small; lia).
     rewrite Hu1, Hu2.
-    rewrite (dec32_be32 (blen name)) by lia.
-    rewrite <- Hlen. rewrite rd_plain_app. rewrite Hgl.
+    rewrite (dec32_be32 (blen low)) by lia.
+    rewrite rd_plain_app. rewrite Hgl.
     rewrite rd_plain_be32. rewrite (dec32_be32 (blen (join_byte 0 vals))) by lia.
     rewrite rd_plain_app.
     assert (Hrefl : bytes_eqb low low = true) by (apply bytes_eqb_eq; reflexivity).
@@ -110,12 +109,12 @@ Proof.
 Qed.
 
 (* ---- refutations (witnesses computed on the model; the same inputs are in corpus/C39 and were run on the Go code) ---- *)
-(* header name "İx" (c4 b0 78), value "v" *)
+(* header name "İx" (c4 b0 78; ToLower = "ix"), value "v": unreadable before the fix, round-trips now *)
 Definition w_Ix : list went := [([196; 176; 120], [105; 120], [[118]])].
-Lemma roundtrip_refuted_lemma :
-  go_lower [196; 176; 120] = Some [105; 120] /\
-  exists s mx, parse_block rd_plain (write_block w_Ix) = PIo 1 s mx.
-Proof. split; [reflexivity|]. eexists. eexists. vm_compute. reflexivity. Qed.
+Lemma Ix_roundtrip_lemma :
+  go_lower [196; 176; 120] = Some [105; 120] /\ forallb ent_ok w_Ix = true /\
+  parse_block rd_plain (write_block w_Ix) = PDone [([73; 120], [[118]])] 7 0 [] 4.
+Proof. vm_compute. repeat split; reflexivity. Qed.
 
 (* a 12-byte block: one header whose name length field says 2^26 *)
 Definition w_alloc : bytes := [0;0;0;1; 4;0;0;0; 97;98;99;100].
